@@ -205,9 +205,7 @@ def query (d : DState) (toks : List String) : String :=
   | ["xdsgw", ns] =>
     -- CDS of a Router proxy (FilterGatewayClusterConfig off): the clusters of its default scope
     let cfgNs := dec ns
-    let services := if d.defaultNs.contains cfgNs
-      then scopeServices d.flags d.mesh d.svcs d.vss none cfgNs
-      else gatewayScopeServices d.aliasGuard d.mesh d.svcs cfgNs
+    let services := gatewayScopeServices d.aliasGuard d.mesh d.svcs cfgNs
     "C=" ++ encSet (clusterNames d cfgNs [("istio", "ingressgateway")] services)
   | ["eds", ns, lbl] =>
     -- EDS for outbound|port||h of every hostname of the mesh: answered from the scope's service only
@@ -223,11 +221,8 @@ def query (d : DState) (toks : List String) : String :=
     "E=" ++ encList (answers.mergeSort (fun a b => !(b < a)))
   | ["gw", ns] =>
     let cfgNs := dec ns
-    -- "Gateways always use default sidecar scope": a default scope cached by an earlier sidecar proxy wins
-    if d.defaultNs.contains cfgNs then
-      let ls := scopeListeners d.flags d.mesh d.svcs d.vss none cfgNs
-      showScope d (cfgNs ++ "/default-sidecar") ls (collectImportedServices d.flags d.mesh d.svcs cfgNs ls) cfgNs
-    else
+    -- gateways always use the default scope computed for gateways (/repo 7a798fd: no longer the cached
+    -- default scope of the namespace's sidecars)
     let vs := gatewayVirtualServices d.mesh d.vss cfgNs "mesh"
     let services := gatewayScopeServices d.aliasGuard d.mesh d.svcs cfgNs
     showScope d (cfgNs ++ "/default-sidecar") [{ matchPort := none, hosts := [], services := [], vss := vs }] services cfgNs
